@@ -1451,6 +1451,73 @@ def gen_world_trailing_empty(rng):
     return w
 
 
+def gen_world_wide_piece(rng):
+    """C05 / C16: one piece spanning some seventy files, each with two byte-identical copies in the scan directories (as on a
+    second run, when every file has its scan copy and its export copy): products of candidate counts pass 2^64"""
+    w = World()
+    n = rng.range(66, 80)
+    files = [TFile(1 + i, [b"w%03d" % i], gen_content(rng, 1 + i)) for i in range(n)]
+    g = GT(b"wide", 8192, files, True)
+    w.gts = [g]; w.docs = [g.doc]
+    w.dirs.add(w.export)
+    w.scan = [(b"scan0",), (b"scan1",)]
+    for i, f in enumerate(files):
+        w.add_file((b"scan0", b"w%03d" % i), f.content)
+        w.add_file((b"scan1", b"copy%03d" % i), f.content)
+    w.add_file((b"bystander", b"note.txt"), b"do not touch")
+    w.threads = rng.choice([1, 2, 0])
+    w.tag = "one piece over seventy files with two copies each"
+    return w
+
+
+def gen_world_name_max(rng):
+    """C04 / C11 / C12: file names at the NAME_MAX boundary — one of exactly 255 bytes (exportable) and siblings that extend
+    it (259 bytes: the OS refuses them). The long ones must fault; they must never land on the 255-byte file's image.
+    Judged on the outcome (the model has no name-length limit)."""
+    w = World()
+    base = b"a" * 251 + b".bin"
+    fa = TFile(8, [base], gen_content(rng, 8))
+    fb = TFile(4, [base + b".sig"], gen_content(rng, 4))
+    fc = TFile(4, [base + b".nfo"], gen_content(rng, 4))
+    g = GT(b"nm", 4, [fa, fb, fc], True)
+    w.gts = [g]; w.docs = [g.doc]; w.has_truth = False
+    w.dirs.add(w.export)
+    w.scan = [(b"scan0",)]
+    for i, f in enumerate(g.files):
+        w.add_file((b"scan0", b"src%d" % i), f.content)
+    w.add_file((b"bystander", b"note.txt"), b"do not touch")
+    w.threads = rng.choice([1, 2])
+    w.expect_content = {tuple(g.target(w.export, fa)): fa.content}
+    w.tag = "names beyond NAME_MAX"
+    return w
+
+
+def gen_world_truncated_neighbour(rng):
+    """C12: torrent X's prior export image is LONGER than declared and has the length of torrent Y's first file, so it is a
+    candidate for Y (the export directory is scanned). X's own piece is evaluated first (single-file pieces go first) and
+    truncates the image; Y's piece then reads it short, and Y's digest is crafted to match that short assembly: the writer
+    must fail on the missing bytes — but only after giving Y's image its declared length."""
+    import hashlib
+    w = World()
+    lx, ly1, ly2 = rng.range(3, 6), rng.range(8, 12), rng.range(1, 3)
+    fx = TFile(lx, [b"x.bin"], gen_content(rng, lx))
+    gx = GT(b"x.bin", 16, [fx], False)
+    stale = fx.content + gen_content(rng, ly1 - lx)                     # X's image: right head, over-long
+    y2 = gen_content(rng, ly2)
+    digest = hashlib.sha1(stale[:lx] + y2).digest()                    # what Y's piece hashes to once the image is truncated
+    ydoc = G.benc(G.meta_doc(name=b"Y", piece_length=32, files=[(ly1, [b"y1"]), (ly2, [b"y2"])], hashes=digest))
+    w.gts = [gx]; w.docs = [gx.doc, ydoc]; w.has_truth = False
+    w.dirs.add(w.export)
+    w.scan = [(b"scan0",), w.export]
+    w.add_file(tuple(gx.target(w.export, fx)), stale)
+    w.add_file((b"scan0", b"xsrc"), fx.content)
+    w.add_file((b"scan0", b"y2src"), y2)
+    w.add_file((b"bystander", b"note.txt"), b"do not touch")
+    w.threads = 1
+    w.tag = "neighbour image truncated before it is read"
+    return w
+
+
 def gen_world_misfiled(rng):
     """C01: export images that hold ANOTHER torrent file's (correct) bytes — a mis-filed download. The matcher may
     legitimately use such an image as the source of the other file's segment; what is written must still be the
